@@ -187,6 +187,19 @@ Result(api, sk, kk, n, L, R, ss, ks) ==
          [] OTHER -> PlumbObs(DrainAux(sk, kk, e, R))     \* "daux"
 
 ---------------------------------------------------------------------------
+(* N beyond INT_MAX (2^31 .. 2^32 + k, as four 16-bit words): chunk-style drivers that account for the octets without touching
+   memory.  The counted loop completes with the first driver call that takes everything (a script's end means "everything");
+   calls that take 1 or 2 octets, zero-length returns and interruptions only delay it; a hard error ends it.
+   putbig n3 n2 n1 n0 nks ks.. | 1 <rc as four words> <octets the driver accounted for, four words>   or   0 errno <accounted> *)
+BBeh == {1, 2, 4, 0, -4, -11, -5}
+RECURSIVE BigScan(_, _)
+BigScan(ks, acc) == IF ks = <<>> THEN <<0, acc>>
+                    ELSE LET b == Head(ks)
+                         IN IF b = 4 THEN <<0, acc>> ELSE IF b \in {1, 2} THEN BigScan(Tail(ks), acc + b)
+                            ELSE IF b = EIO THEN <<EIO, acc>> ELSE BigScan(Tail(ks), acc)
+BigResult(n4, ks) == LET r == BigScan(ks, 0) IN IF r[1] = 0 THEN <<1>> \o n4 \o n4 ELSE <<0, r[1], 0, 0, 0, r[2]>>
+BigNs == {<<0, 0, 32767, 65535>>, <<0, 0, 32768, 0>>, <<0, 0, 32768, 5>>, <<0, 0, 65535, 65535>>, <<0, 1, 0, 0>>, <<0, 1, 0, 7>>, <<0, 2, 0, 1>>}
+
 ExtApis == {"sstx", "astx", "nstx", "dstx"}
 PlApis == {"cbc", "ncbc", "dcbc", "someaux", "amaux", "naux", "daux", "ssts", "asts", "nsts", "dsts"} \cup ExtApis
 (* C17 on the model: evaluated per case *)
@@ -221,7 +234,7 @@ Scripts(B, k) == SeqsUpTo(B, k)
 Line(api, sk, kk, n, L, R, ss, ks) ==
     api \o " " \o Join(<<sk, kk, n, L, R, Len(ss)>> \o ss \o <<Len(ks)>> \o ks) \o " | "
 RwApis == {"get", "getam", "put", "putam"}
-Init == /\ phase \in {<<"b", api, k>> : api \in RwApis \cup PlApis \cup {"geto", "puto"}, k \in {1, 2}} /\ ev = Boot
+Init == /\ phase \in {<<"b", api, k>> : api \in RwApis \cup PlApis \cup {"geto", "puto"}, k \in {1, 2}} \cup {<<"b", "putbig", 2>>, <<"b", "getbig", 2>>} /\ ev = Boot
 Next == /\ phase[1] = "b" /\ ev' = Boot
         /\ LET api == phase[2]
                k == phase[3]
@@ -231,6 +244,8 @@ Next == /\ phase[1] = "b" /\ ev' = Boot
               \/ /\ api \in {"put", "putam"}
                  /\ \E n \in -1..MaxN, ks \in Scripts(Beh, MaxScript) :
                        (n > 0 \/ api = "put") /\ (n < 0 => Len(ks) <= 1) /\ phase' = <<"c", api, 2, k, n, 0, 0, <<>>, ks>>
+              \/ /\ api \in {"putbig", "getbig"}
+                 /\ \E n4 \in BigNs, ks \in Scripts(BBeh, 2) : phase' = <<"c", api, 2, 2, n4, 0, 0, <<>>, ks>>
               \/ /\ api = "geto" /\ \E L \in {0, 1}, ss \in Scripts(Beh, 1) : phase' = <<"c", api, k, 2, 1, L, 0, ss, <<>>>>
               \/ /\ api = "puto" /\ \E ks \in Scripts(Beh, 1) : phase' = <<"c", api, 2, k, 1, 0, 0, <<>>, ks>>
               \/ /\ api \in PlApis
@@ -244,11 +259,13 @@ Next == /\ phase[1] = "b" /\ ev' = Boot
 Spec == Init /\ [][Next]_<<vars, ev>>
 
 P == phase
-CaseInv == phase[1] = "c" => CaseOK(P[2], P[3], P[4], P[5], P[6], P[7], P[8], P[9])
+IsBig == P[2] \in {"putbig", "getbig"}
+CaseInv == phase[1] = "c" /\ ~IsBig => CaseOK(P[2], P[3], P[4], P[5], P[6], P[7], P[8], P[9])
 (* alternatives (R4): a zero-length read in the aux plumbing may be reported as 0 moved or refused as
    invalid, and the sink may be offered nothing in either case *)
 Alts(api, o) == IF api \in {"someaux", "amaux", "naux", "daux"} THEN <<o>> ELSE <<o>>
 EmitCases == phase[1] = "c" =>
-    PrintT("C;;" \o Line(P[2], P[3], P[4], P[5], P[6], P[7], P[8], P[9])
-           \o Join(Result(P[2], P[3], P[4], P[5], P[6], P[7], P[8], P[9])))
+    IF IsBig THEN PrintT("C;;" \o P[2] \o " " \o Join(P[5] \o <<Len(P[9])>> \o P[9]) \o " | " \o Join(BigResult(P[5], P[9])))
+    ELSE PrintT("C;;" \o Line(P[2], P[3], P[4], P[5], P[6], P[7], P[8], P[9])
+                \o Join(Result(P[2], P[3], P[4], P[5], P[6], P[7], P[8], P[9])))
 =============================================================================
